@@ -106,7 +106,7 @@ def run_property(pid, tier='quick', update_ledger=False, verbose=False):
     t_start = time.time()
     seed = int(os.environ.get('VERIF_SEED', '0') or 0)
     prop = load_prop(pid)
-    jobs = [(pid, c.func, None) for c in prop.contracts]
+    jobs = [(pid, c.key, None) for c in prop.contracts]
     nproc = min(16, max(1, len(jobs)))
     results = []
     if jobs:
@@ -183,7 +183,7 @@ def run_property(pid, tier='quick', update_ledger=False, verbose=False):
             # everything outside the listed regions must still verify
             regions = [k['region'] for k in active if k.get('region')]
             func = oid.split('::')[0]
-            if regions and any(c.func == func for c in prop.contracts):
+            if regions and any(c.key == func for c in prop.contracts):
                 extra = ['not (%s)' % r for r in regions]
                 rr = _verify_worker((pid, func, extra))
                 if not rr['ok']:
